@@ -14,6 +14,13 @@ pub fn pipeline_dirs() -> Vec<PathBuf> {
 }
 
 pub fn main() -> i32 {
+    let expected: Vec<String> = std::fs::read_to_string(crate::util::verif_root().join("expected_golden_diffs.txt"))
+        .unwrap_or_default()
+        .lines()
+        .filter(|l| !l.starts_with('#') && !l.trim().is_empty())
+        .map(|l| l.trim().to_string())
+        .collect();
+    let mut expected_seen = 0;
     let mut bad = 0;
     let mut n = 0;
     for d in pipeline_dirs() {
@@ -37,11 +44,16 @@ pub fn main() -> i32 {
             }
             let gold = std::fs::read_to_string(d.join(format!("main.gom.{}", label))).unwrap_or_default();
             if gold != text {
-                println!("DIFF {} stage {}", d.display(), label);
-                bad += 1;
+                let key = format!("{} {}", d.file_name().unwrap().to_string_lossy(), label);
+                if expected.contains(&key) {
+                    expected_seen += 1;
+                } else {
+                    println!("DIFF {} stage {}", d.display(), label);
+                    bad += 1;
+                }
             }
         }
     }
-    println!("goldens: {} programs compiled, {} differences", n, bad);
+    println!("goldens: {} programs compiled, {} unexpected differences ({} expected ones from fix: commits)", n, bad, expected_seen);
     if bad > 0 { 1 } else { 0 }
 }
